@@ -147,8 +147,28 @@ struct QT_ : state_machine_def<QT_> {
   template<class F,class Ev> void no_transition(Ev const&,F&,int){ g_log += "NTtop "; }
 };
 typedef BE<QT_> QT;
+// events that the entry behaviour of a submachine's initial state sends to THAT submachine, which has no completion transition: they are
+// stored while the entry runs and dispatched, in order, as soon as the entry step of the submachine is over - not left pending (C04)
+struct snote { int n; snote(int n_=0):n(n_){} }; struct senter {};
+struct SE_ : state_machine_def<SE_> {
+  struct I : state<> { template<class E,class F> void on_entry(E const&,F& f){ g_log += "I.entry{ "; f.process_event(snote(1)); f.process_event(snote(2)); g_log += "} "; } };
+  struct LogN { template<class F,class S,class T> void operator()(snote const& e,F&,S&,T&){ g_log += "note" + std::to_string(e.n) + " "; } };
+  typedef I initial_state;
+  struct transition_table : mpl::vector< Row<I,snote,none,LogN,none> > {};
+  template<class F,class Ev> void no_transition(Ev const&,F&,int){ g_log += "NTsub "; }
+};
+typedef BE<SE_> SE;
+struct TSE_ : state_machine_def<TSE_> {
+  struct O : state<> {};
+  typedef O initial_state;
+  struct transition_table : mpl::vector< Row<O,senter,SE,none,none> > {};
+  template<class F,class Ev> void no_transition(Ev const&,F&,int){ g_log += "NT "; }
+};
+typedef BE<TSE_> TSE;
 int main(int argc, char** argv) {
   if (argc > 1) g_only = argv[1];
+  { TSE m; m.start(); g_log.clear(); m.process_event(senter());
+    report("sub-entry.events-sent-to-the-submachine-by-its-initial-entry-run-right-after-the-entry", g_log == "I.entry{ } note1 note2 ", "C04,C13", "log=[" + g_log + "]"); }
   { QT m; m.start(); g_log.clear(); m.process_event(skick());
     report("submachine-sends-itself-an-unhandled-event.reported-by-that-machine-once", g_log == "raise NTsub ", "C04,C06,C13", "log=[" + g_log + "]"); }
   const char* pos[] = {"guard","exit","action","entry"};
